@@ -378,10 +378,32 @@ func (e *Exec) mapGet(mr MapRef, k Value) (Value, bool) {
 	return nil, false
 }
 
+// mapFindQuiet: entry for a concrete key without resolving its presence guard (nil if the key
+// needs symbolic comparison or is absent).
+func (e *Exec) mapFindQuiet(m *Map, k Value) (*MapEntry, bool) {
+	ck, ok := concKey(k)
+	if !ok {
+		return nil, false
+	}
+	for _, en := range m.Entries {
+		if en.Deleted {
+			continue
+		}
+		if _, c := concKey(en.K); !c {
+			return nil, false // symbolic keys present: fall back to the general path
+		}
+	}
+	if i, ok := m.idx[ck]; ok && !m.Entries[i].Deleted {
+		return m.Entries[i], true
+	}
+	return nil, true
+}
+
 func (e *Exec) mapUpdate(mr MapRef, k, v Value) {
 	if mr.M == nil {
 		e.rtPanic("assignment to entry in nil map")
 	}
+	e.effectOn(mr.M.ID)
 	e.noteMapWrite(mr.M)
 	e.subGuard("map write")
 	if mr.M.Frozen && !e.initMode {
@@ -403,6 +425,26 @@ func (e *Exec) mapDelete(mr MapRef, k Value) {
 		return
 	}
 	e.noteMapWrite(mr.M)
+	e.subGuard("map delete")
+	e.effectOn(mr.M.ID)
+	// deleting a concrete key never needs to know whether a guarded entry is present
+	if ck, ok := concKey(k); ok {
+		if i, ok := mr.M.idx[ck]; ok && !mr.M.Entries[i].Deleted {
+			mr.M.Entries[i].Deleted = true
+			delete(mr.M.idx, ck)
+		}
+		anySym := false
+		for _, en := range mr.M.Entries {
+			if !en.Deleted {
+				if _, c := concKey(en.K); !c {
+					anySym = true
+				}
+			}
+		}
+		if !anySym {
+			return
+		}
+	}
 	if en := e.mapFind(mr.M, k); en != nil {
 		en.Deleted = true
 		if ck, ok := concKey(en.K); ok {
@@ -444,6 +486,40 @@ func (e *Exec) lookup(fr *frame, in *ssa.Lookup) Value {
 	}
 	mr := x.(MapRef)
 	vt := in.X.Type().Underlying().(*types.Map).Elem()
+	// guarded entry under a concrete key with an interface value: stay symbolic
+	if mr.M != nil {
+		if en, quiet := e.mapFindQuiet(mr.M, fr.get(in.Index)); quiet && en != nil && en.Guard != nil {
+			var gv Value
+			switch iv := en.V.(type) {
+			case Iface:
+				if iv.T != nil {
+					iv.Guard = sym.And(en.Guard, guardT(iv.Guard))
+					gv = iv
+				}
+			case Slice:
+				if iv.Obj != nil || iv.Abs != nil {
+					iv.Guard = sym.And(en.Guard, guardT(iv.Guard))
+					gv = iv
+				}
+			case MapRef:
+				if iv.M != nil {
+					iv.Guard = sym.And(en.Guard, guardT(iv.Guard))
+					gv = iv
+				}
+			case Ptr:
+				if iv.Obj != nil {
+					iv.Guard = sym.And(en.Guard, guardT(iv.Guard))
+					gv = iv
+				}
+			}
+			if gv != nil {
+				if in.CommaOk {
+					return Tuple{gv, en.Guard}
+				}
+				return gv
+			}
+		}
+	}
 	v, ok := e.mapGet(mr, fr.get(in.Index))
 	if !ok {
 		v = e.zero(vt)
@@ -483,9 +559,13 @@ func (e *Exec) rangeIter(x Value, t types.Type) Value {
 	panic(fmt.Sprintf("range over %T", x))
 }
 
-func (e *Exec) next(it Value, in *ssa.Next) Value {
+func (e *Exec) next(fr *frame, it Value, in *ssa.Next) Value {
 	switch x := it.(type) {
 	case *mapIter:
+		// a speculative iteration of this loop came back without any effect: was it observable?
+		if p := fr.pendingFor(in); p != nil {
+			e.finishPending(fr, p)
+		}
 		// drop deleted entries and resolve presence guards
 		for {
 			var live []*MapEntry
@@ -505,8 +585,16 @@ func (e *Exec) next(it Value, in *ssa.Next) Value {
 			}
 			en := x.left[i]
 			x.left = append(append([]*MapEntry(nil), x.left[:i]...), x.left[i+1:]...)
-			if en.Guard != nil && !e.Branch(en.Guard) {
-				continue
+			if en.Guard != nil {
+				if en.Guard.IsFalse() {
+					continue
+				}
+				if e.sub == nil && !e.NoLazyRange && !en.Guard.IsConst() {
+					// lazy presence: run the body speculatively; the fork happens only if the body has an effect
+					e.startPending(fr, in, en.Guard)
+				} else if !e.Branch(en.Guard) {
+					continue
+				}
 			}
 			return Tuple{sym.True, en.K, en.V}
 		}
@@ -620,6 +708,7 @@ func (e *Exec) callBuiltin(fr *frame, b *ssa.Builtin, args []Value, site ssa.Ins
 			n = min(dst.Len, src.Len)
 			if n > 0 {
 				e.noteWrite(dst.Obj)
+				e.effectOn(dst.Obj.ID)
 				tmp := append([]Value(nil), src.Obj.Elems[src.Off:src.Off+n]...)
 				copy(dst.Obj.Elems[dst.Off:dst.Off+n], tmp)
 			}
@@ -772,6 +861,7 @@ func (e *Exec) appendOp(s Slice, more Value, site ssa.Instruction) Value {
 	}
 	if s.Obj != nil && s.Len+len(add) <= s.Cap {
 		e.noteWrite(s.Obj)
+		e.effectOn(s.Obj.ID)
 		copy(s.Obj.Elems[s.Off+s.Len:], add)
 		s.Len += len(add)
 		return s
